@@ -313,9 +313,22 @@ class _EvaluatorCompiler:
         )
         return self._straight_evaluate(sql_mod, eval_left, eval_right, clause)
 
+    @staticmethod
+    def _sql_in(a, b):
+        # three-valued IN: a non-matching list that contains NULL yields
+        # NULL rather than FALSE, so that NOT IN never matches it
+        if a is _NO_OBJECT:
+            return None
+        elif a in b:
+            return True
+        elif None in b:
+            return None
+        else:
+            return False
+
     def visit_in_op_binary_op(self, operator, eval_left, eval_right, clause):
         return self._straight_evaluate(
-            lambda a, b: a in b if a is not _NO_OBJECT else None,
+            self._sql_in,
             eval_left,
             eval_right,
             clause,
@@ -324,8 +337,12 @@ class _EvaluatorCompiler:
     def visit_not_in_op_binary_op(
         self, operator, eval_left, eval_right, clause
     ):
+        def sql_not_in(a, b):
+            result = self._sql_in(a, b)
+            return None if result is None else not result
+
         return self._straight_evaluate(
-            lambda a, b: a not in b if a is not _NO_OBJECT else None,
+            sql_not_in,
             eval_left,
             eval_right,
             clause,
